@@ -1,11 +1,28 @@
 import ScryerModel.Proofs.Order
 import ScryerModel.Proofs.Sort
 import ScryerModel.Proofs.OrdSet
+import ScryerModel.Proofs.Assoc
+import ScryerModel.Model.ListLib
 /-
-C14 — Sorting builtins and collection libraries match their models (work in progress).
+C14 — Sorting builtins and collection libraries match their models.
+
+The theorems are stated for an arbitrary three-way comparison `cmp` that is a total preorder
+(`IsPreorder`: sort/2, keysort/2) or a total order (`IsLinear`: ordsets, where "the same set" is
+meant literally). `C14_standard_order_is_preorder` / `C14_standard_order_is_linear` instantiate
+them with the standard order of terms (C13). What is proved about which code:
+
+* sort/2, keysort/2 — the SPECIFICATION (Model/Sort.lean) and its uniqueness: the Rust library
+  sorts are not mirrored; any algorithm meeting the spec returns exactly this list.
+* library(ordsets), library(assoc) put/get — clause-by-clause TRANSCRIPTIONS (Model/OrdSet.lean,
+  Model/Assoc.lean) proved equal to the set / finite-map operations.
+* library(lists)/(pairs) — functional versions with their defining laws.
 -/
 namespace Scryer.C14
 open Scryer Scryer.Order Scryer.Sort
+
+variable {α : Type} {cmp : α → α → Ordering}
+
+/-! ## the standard order of terms is an instance -/
 
 /-- terms whose rationals have positive denominators (the well-formedness invariant of the
     shared term model). -/
@@ -14,7 +31,8 @@ def NTerm := {t : Term // DenPos t}
 /-- the standard order on well-formed terms. -/
 def ncmp (age : String → Nat) (a b : NTerm) : Ordering := termCompare age a.1 b.1
 
-/-- the standard order of terms is a total preorder (C13). -/
+/-- the standard order of terms is a total preorder (C13), so every `IsPreorder` theorem below
+    holds for sort/2 and keysort/2 on terms. -/
 theorem C14_standard_order_is_preorder (age : String → Nat) : IsPreorder (ncmp age) where
   refl a := termCompare_refl age a.1
   swap a b := termCompare_swap age a.1 b.1
@@ -28,5 +46,442 @@ theorem C14_standard_order_is_preorder (age : String → Nat) : IsPreorder (ncmp
       · exact absurd hbc h2
     · rw [t.eq_l hab]; exact h2
     · exact absurd hab h1
+
+/-- normal terms (no `-0.0`/NaN variants, rationals in lowest terms, C13 `Normal`) with distinct
+    variables of distinct age. -/
+def NormTerm := {t : Term // DenPos t ∧ Normal t}
+
+def nncmp (age : String → Nat) (a b : NormTerm) : Ordering := termCompare age a.1 b.1
+
+/-- on normal terms the standard order is a total ORDER: `==` is identity (C13
+    `termCompare_eq_iff`), so the ordset / assoc-key theorems apply literally. -/
+theorem C14_standard_order_is_linear (age : String → Nat) (hage : Function.Injective age) :
+    IsLinear (nncmp age) where
+  refl a := termCompare_refl age a.1
+  swap a b := termCompare_swap age a.1 b.1
+  le_trans a b c h1 h2 :=
+    (C14_standard_order_is_preorder age).le_trans ⟨a.1, a.2.1⟩ ⟨b.1, b.2.1⟩ ⟨c.1, c.2.1⟩ h1 h2
+  eq_imp a b e := Subtype.ext ((termCompare_eq_iff age hage a.1 b.1 a.2.2 b.2.2).1 e)
+
+/-! ## sort/2 -/
+
+/-- sort/2 returns a strictly ascending list (hence without `==` duplicates), every element of
+    which is an element of the input, and every input element is `==` to one of the result. -/
+theorem C14_sort_spec (h : IsPreorder cmp) (xs : List α) :
+    StrictSorted cmp (sortDedup cmp xs) ∧ (∀ y ∈ sortDedup cmp xs, y ∈ xs) ∧
+      ∀ x ∈ xs, ∃ y ∈ sortDedup cmp xs, cmp y x = .eq :=
+  sortDedup_spec h xs
+
+/-- uniqueness: two strictly ascending lists that represent the same `==` classes have the same
+    length and agree position by position up to `==`. So the result of ANY correct sort/2
+    algorithm (in particular Rust's unstable sort followed by `dedup_by`) is this list up to `==`. -/
+theorem C14_sort_unique (h : IsPreorder cmp) (a b : List α) (sa : StrictSorted cmp a)
+    (sb : StrictSorted cmp b) (hab : ∀ x ∈ a, ∃ y ∈ b, cmp x y = .eq)
+    (hba : ∀ y ∈ b, ∃ x ∈ a, cmp x y = .eq) :
+    Pointwise (fun x y => cmp x y = .eq) a b ∧ a.length = b.length :=
+  ⟨strict_unique h a b sa sb hab hba, (strict_unique h a b sa sb hab hba).length_eq⟩
+
+/-- characterisation for a total order: sort/2 returns THE strictly ascending list with the same
+    set of elements as the input. -/
+theorem C14_sort_characterisation (h : IsLinear cmp) (xs ys : List α) :
+    ys = sortDedup cmp xs ↔ StrictSorted cmp ys ∧ ∀ x, x ∈ ys ↔ x ∈ xs :=
+  sortDedup_iff h xs ys
+
+/-- sorting a strictly ascending list changes nothing; sort/2 is idempotent. -/
+theorem C14_sort_idempotent (h : IsPreorder cmp) (xs : List α) :
+    sortDedup cmp (sortDedup cmp xs) = sortDedup cmp xs ∧
+      (StrictSorted cmp xs → sortDedup cmp xs = xs) :=
+  ⟨sortDedup_idem h xs, sortDedup_of_strict h xs⟩
+
+/-- the result depends only on the SET of input elements (order and multiplicity are irrelevant). -/
+theorem C14_sort_set_invariant (h : IsLinear cmp) (xs ys : List α) (hm : ∀ x, x ∈ xs ↔ x ∈ ys) :
+    sortDedup cmp xs = sortDedup cmp ys :=
+  (sortDedup_iff h ys _).2 ⟨(sortDedup_spec h.toIsPreorder xs).1,
+    fun x => by rw [mem_sortDedup h, hm]⟩
+
+/-- sort/2 never lengthens. -/
+theorem C14_sort_length_le (h : IsPreorder cmp) (xs : List α) :
+    (sortDedup cmp xs).length ≤ xs.length := by
+  unfold sortDedup
+  have hp := (msort_perm h xs).length_eq
+  have : ∀ l : List α, (dedupAdj cmp l).length ≤ l.length := by
+    intro l
+    cases l with
+    | nil => simp [dedupAdj]
+    | cons x r =>
+      have : ∀ (p : α) (r : List α), (dedupFrom cmp p r).length ≤ r.length := by
+        intro p r
+        induction r generalizing p with
+        | nil => simp [dedupFrom]
+        | cons y r ih =>
+          simp only [dedupFrom]
+          split
+          · exact Nat.le_succ_of_le (ih p)
+          · simp only [List.length_cons]; exact Nat.succ_le_succ (ih y)
+      simp only [dedupAdj, List.length_cons]
+      exact Nat.succ_le_succ (this x r)
+  exact hp ▸ this _
+
+/-! ## keysort/2 (a stable sort) -/
+
+/-- the comparison of pairs by their keys is a total preorder when the key order is one. -/
+theorem keyCmp_preorder {κ : Type} {kcmp : κ → κ → Ordering} (h : IsPreorder kcmp) :
+    IsPreorder (fun (a b : κ × α) => kcmp a.1 b.1) where
+  refl a := h.refl a.1
+  swap a b := h.swap a.1 b.1
+  le_trans a b c := h.le_trans a.1 b.1 c.1
+
+/-- keysort/2: the result is a permutation of the input, non-decreasing by key, and stable: the
+    pairs with keys `==` to any given key appear in their input order. -/
+theorem C14_keysort_spec {κ : Type} {kcmp : κ → κ → Ordering} (h : IsPreorder kcmp)
+    (xs : List (κ × α)) :
+    (keysortBy kcmp xs).Perm xs ∧
+      Sorted (fun (a b : κ × α) => kcmp a.1 b.1) (keysortBy kcmp xs) ∧
+      ∀ k : κ × α, cls (fun (a b : κ × α) => kcmp a.1 b.1) k (keysortBy kcmp xs) =
+        cls (fun (a b : κ × α) => kcmp a.1 b.1) k xs := by
+  have hk := keyCmp_preorder (α := α) h
+  unfold keysortBy
+  rw [msort_eq_isort hk]
+  exact ⟨isort_perm xs, isort_sorted hk xs, fun k => cls_isort hk k xs⟩
+
+/-- uniqueness of the stable sort: a list that is non-decreasing by key and keeps every class of
+    equal-key pairs in input order IS the keysort result. (So Rust's `sort_by`, being a stable
+    sort, returns this list.) -/
+theorem C14_keysort_characterisation {κ : Type} {kcmp : κ → κ → Ordering} (h : IsPreorder kcmp)
+    (xs ys : List (κ × α)) :
+    ys = keysortBy kcmp xs ↔
+      Sorted (fun (a b : κ × α) => kcmp a.1 b.1) ys ∧
+      ∀ k : κ × α, cls (fun (a b : κ × α) => kcmp a.1 b.1) k ys =
+        cls (fun (a b : κ × α) => kcmp a.1 b.1) k xs := by
+  have hk := keyCmp_preorder (α := α) h
+  unfold keysortBy
+  rw [msort_eq_isort hk]
+  exact isort_iff hk xs ys
+
+/-- keysort/2 is idempotent, and leaves a list that is already sorted by key unchanged. -/
+theorem C14_keysort_idempotent {κ : Type} {kcmp : κ → κ → Ordering} (h : IsPreorder kcmp)
+    (xs : List (κ × α)) :
+    keysortBy kcmp (keysortBy kcmp xs) = keysortBy kcmp xs ∧
+      (Sorted (fun (a b : κ × α) => kcmp a.1 b.1) xs → keysortBy kcmp xs = xs) := by
+  have hk := keyCmp_preorder (α := α) h
+  unfold keysortBy
+  simp only [msort_eq_isort hk]
+  exact ⟨isort_idem hk xs, fun s => isort_of_sorted hk s⟩
+
+/-- the bottom-up merge sort the model driver runs is the stable sort defined by insertion. -/
+theorem C14_merge_sort_is_stable_sort (h : IsPreorder cmp) (xs : List α) :
+    msort cmp xs = isort cmp xs :=
+  msort_eq_isort h xs
+
+/-! ## error cases of the builtins (ISO 8.4.3.3, 8.4.4.3), on terms -/
+
+theorem termSize_ofList (xs : List Term) (tl : Term) :
+    xs.length < termSize (Term.ofList xs tl) := by
+  induction xs with
+  | nil => cases tl <;> simp [Term.ofList, termSize]
+  | cons x xs ih =>
+    simp only [Term.ofList, List.foldr_cons, Term.cons, termSize, termSize.sizeArgs,
+      List.length_cons] at ih ⊢
+    omega
+
+/-- not a list cell. -/
+def NotCons (t : Term) : Prop := ∀ h u, t ≠ .str "." [h, u]
+
+theorem viewList_notCons (tl : Term) (hn : NotCons tl) (fuel : Nat) :
+    viewList fuel tl = ([], tl) := by
+  cases fuel with
+  | zero => rfl
+  | succ f =>
+    unfold viewList
+    split
+    all_goals first | rfl | exact absurd rfl (hn _ _)
+
+theorem viewList_ofList (xs : List Term) (tl : Term) (hn : NotCons tl) :
+    ∀ fuel, xs.length < fuel → viewList fuel (Term.ofList xs tl) = (xs, tl) := by
+  induction xs with
+  | nil =>
+    intro fuel _
+    simp only [Term.ofList, List.foldr_nil]
+    exact viewList_notCons tl hn fuel
+  | cons x xs ih =>
+    intro fuel hf
+    cases fuel with
+    | zero => omega
+    | succ f =>
+      have := ih f (by simpa using hf)
+      simp only [Term.ofList, List.foldr_cons, Term.cons] at this ⊢
+      simp [viewList, this]
+
+theorem view_ofList (xs : List Term) (tl : Term) (hn : NotCons tl) :
+    view (Term.ofList xs tl) = (xs, tl) :=
+  viewList_ofList xs tl hn _ (termSize_ofList xs tl)
+
+/-- sort/2 on a proper list and a variable second argument never raises: it returns the sort.
+    (Finding C14-1: the pinned implementation raises `type_error(list, L)` for proper lists such
+    as `[c,1]` whose first cells are stored as a partial string.) -/
+theorem C14_sort_total_on_lists (c : Term → Term → Ordering) (xs : List Term) (v : String) :
+    sortCall c (Term.ofList xs) (.var v) = .unifyWith (Term.ofList (sortDedup c xs)) := by
+  have h1 := view_ofList xs (.atom "[]") (by intro h u; simp)
+  have h2 : view (.var v) = ([], .var v) := by simp [view, viewList, termSize]
+  simp only [sortCall, Term.nil, h1, h2]
+
+/-- sort/2 errors: a partial list is an instantiation error, a list prefix ending in anything
+    else a `type_error(list, L)` with the whole first argument as culprit. -/
+theorem C14_sort_error_cases (c : Term → Term → Ordering) (xs : List Term) (s : Term) :
+    (∀ v, sortCall c (Term.ofList xs (.var v)) s = .instErr) ∧
+    (∀ tl, NotCons tl → (∀ v, tl ≠ .var v) → tl ≠ Term.nil →
+      sortCall c (Term.ofList xs tl) s = .typeErr "list" (Term.ofList xs tl)) := by
+  refine ⟨fun v => ?_, fun tl hn hv hnil => ?_⟩
+  · have h1 := view_ofList xs (.var v) (by intro h u; simp)
+    simp only [sortCall, h1]
+  · have h1 := view_ofList xs tl hn
+    simp only [sortCall, h1]
+    split
+    · rename_i e; simp at e; exact absurd e.2 (hv _)
+    · rename_i e; simp at e; exact absurd e.2 hnil
+    · rfl
+
+/-- keysort/2 on a proper list of `K-V` pairs (and a variable second argument) never raises and
+    returns the list sorted by key. -/
+theorem C14_keysort_total_on_pair_lists (c : Term → Term → Ordering) (xs : List Term) (v : String)
+    (hp : ∀ e ∈ xs, ∃ k w, e = .str "-" [k, w]) :
+    keysortCall c (Term.ofList xs) (.var v) =
+      .unifyWith (Term.ofList ((keysortBy c (keyed xs)).map (·.2))) := by
+  have h3 : pairsError? xs = none := by
+    induction xs with
+    | nil => rfl
+    | cons e r ih =>
+      obtain ⟨k, w, rfl⟩ := hp _ List.mem_cons_self
+      simp only [pairsError?, pairKey?]
+      exact ih fun e he => hp e (List.mem_cons_of_mem _ he)
+  have h1 := view_ofList xs (.atom "[]") (by intro h u; simp)
+  have h2 : view (.var v) = ([], .var v) := by simp [view, viewList, termSize]
+  simp only [keysortCall, Term.nil, h1, h2, sortedError?, h3]
+
+/-- keysort/2 element errors (ISO 8.4.4.3 d, e): the first offending element decides; a variable
+    gives an instantiation error, a non-pair `type_error(pair, E)` with the ELEMENT as culprit
+    (finding C14-2: the pinned implementation reports a dangling functor cell / the list cell). -/
+theorem C14_keysort_error_cases (good : List Term) (bad : Term) (rest : List Term)
+    (hg : ∀ e ∈ good, ∃ k w, e = .str "-" [k, w]) :
+    (∀ v, pairsError? (good ++ .var v :: rest) = some .instErr) ∧
+    (pairKey? bad = none → (∀ v, bad ≠ .var v) →
+      pairsError? (good ++ bad :: rest) = some (.typeErr "pair" bad)) := by
+  induction good with
+  | nil =>
+    refine ⟨fun v => rfl, fun hk hv => ?_⟩
+    cases bad <;> simp_all [pairsError?]
+  | cons e r ih =>
+    obtain ⟨k, w, rfl⟩ := hg _ List.mem_cons_self
+    have := ih fun e he => hg e (List.mem_cons_of_mem _ he)
+    exact ⟨fun v => by simpa [pairsError?, pairKey?] using this.1 v,
+      fun hk hv => by simpa [pairsError?, pairKey?] using this.2 hk hv⟩
+
+/-! ## library(ordsets): the transcriptions compute the set operations -/
+
+open Scryer.OrdSet in
+/-- `ord_union/3`, `ord_intersection/3`, `ord_subtract/3`, `ord_symdiff/3` on strictly ascending
+    lists: the result is strictly ascending and has exactly the elements of the set operation. -/
+theorem C14_ordset_binary (h : IsLinear cmp) (a b : List α) (sa : StrictSorted cmp a)
+    (sb : StrictSorted cmp b) :
+    (StrictSorted cmp (ordUnion cmp a b) ∧ ∀ x, x ∈ ordUnion cmp a b ↔ x ∈ a ∨ x ∈ b) ∧
+    (StrictSorted cmp (ordInt cmp a b) ∧ ∀ x, x ∈ ordInt cmp a b ↔ x ∈ a ∧ x ∈ b) ∧
+    (StrictSorted cmp (ordSubtract cmp a b) ∧ ∀ x, x ∈ ordSubtract cmp a b ↔ x ∈ a ∧ x ∉ b) ∧
+    (StrictSorted cmp (ordSymdiff cmp a b) ∧
+      ∀ x, x ∈ ordSymdiff cmp a b ↔ (x ∈ a ∧ x ∉ b) ∨ (x ∉ a ∧ x ∈ b)) :=
+  ⟨⟨ordUnion_strict h a b sa sb, mem_ordUnion h a b⟩,
+   ⟨ordInt_strict h a b sa sb, mem_ordInt h a b sa sb⟩,
+   ⟨ordSubtract_strict h a b sa sb, mem_ordSubtract h a b sa sb⟩,
+   ⟨ordSymdiff_strict h a b sa sb, mem_ordSymdiff h a b sa sb⟩⟩
+
+open Scryer.OrdSet in
+/-- consequently `ord_union(A, B)` IS `sort(A ++ B)` (the unique strictly ascending list with
+    those elements), and likewise every other operation is determined. -/
+theorem C14_ord_union_eq_sort (h : IsLinear cmp) (a b : List α) (sa : StrictSorted cmp a)
+    (sb : StrictSorted cmp b) : ordUnion cmp a b = sortDedup cmp (a ++ b) :=
+  (sortDedup_iff h (a ++ b) _).2 ⟨ordUnion_strict h a b sa sb,
+    fun x => by rw [mem_ordUnion h, List.mem_append]⟩
+
+open Scryer.OrdSet in
+/-- `ord_add_element/3`, `ord_del_element/3`. -/
+theorem C14_ordset_element (h : IsLinear cmp) (s : List α) (e : α) (ss : StrictSorted cmp s) :
+    (StrictSorted cmp (addel cmp s e) ∧ ∀ x, x ∈ addel cmp s e ↔ x = e ∨ x ∈ s) ∧
+    (StrictSorted cmp (delel cmp s e) ∧ ∀ x, x ∈ delel cmp s e ↔ x ∈ s ∧ x ≠ e) :=
+  ⟨⟨addel_strict h s e ss, mem_addel h s e⟩, ⟨delel_strict h s e ss, fun x => mem_delel h s e x ss⟩⟩
+
+open Scryer.OrdSet in
+/-- the tests: `ord_memberchk/2` (4-way unrolled search), `ord_subset/2`, `ord_intersect/2`
+    (and its negation `ord_disjoint/2`), `is_ordset/1`. -/
+theorem C14_ordset_tests (h : IsLinear cmp) (a b : List α) (e : α) (sa : StrictSorted cmp a)
+    (sb : StrictSorted cmp b) :
+    (ordMemberchk cmp e a = true ↔ e ∈ a) ∧
+    (ordSubset cmp a b = true ↔ ∀ x ∈ a, x ∈ b) ∧
+    (ordIntersect cmp a b = true ↔ ∃ x, x ∈ a ∧ x ∈ b) ∧
+    (ordDisjoint cmp a b = true ↔ ¬ ∃ x, x ∈ a ∧ x ∈ b) ∧
+    (∀ l, isOrdset cmp l = true ↔ StrictSorted cmp l) := by
+  refine ⟨ordMemberchk_iff h e a sa, ordSubset_iff h a b sa sb, ordIntersect_iff h a b sa sb, ?_,
+    isOrdset_iff h.toIsPreorder⟩
+  rw [← ordIntersect_iff h a b sa sb]
+  simp [ordDisjoint]
+
+/-! ## library(assoc): AVL insertion and lookup -/
+
+open Scryer.Assoc in
+/-- `put_assoc/4` never fails on a balanced tree, and the result is balanced (every balance tag
+    is the true height difference, so sibling heights differ by at most one). -/
+theorem C14_assoc_put_balanced {κ ν : Type} (kcmp : κ → κ → Ordering) (k : κ) (v : ν)
+    (tr : Tree κ ν) (bal : Balanced tr) :
+    ∃ tr', putAssoc kcmp k tr v = some tr' ∧ Balanced tr' ∧
+      (height tr' = height tr ∨ height tr' = height tr + 1) := by
+  obtain ⟨tr', ch, e, b, hh, _⟩ := insert_ok kcmp k v tr bal
+  refine ⟨tr', by simp [putAssoc, e], b, ?_⟩
+  cases ch <;> simp at hh <;> omega
+
+open Scryer.Assoc in
+/-- `put_assoc/4` keeps the search-tree order; `assoc_to_list/2` of the result is the old list
+    with the pair inserted at its place (an existing key keeps its key term and takes the new
+    value); in particular `assoc_to_list/2` is strictly ascending by key. -/
+theorem C14_assoc_put_ordered {κ ν : Type} {kcmp : κ → κ → Ordering} (h : IsPreorder kcmp) (k : κ)
+    (v : ν) (tr tr' : Tree κ ν) (ord : Ordered kcmp tr) (e : putAssoc kcmp k tr v = some tr') :
+    toList tr' = insPairs kcmp k v (toList tr) ∧ Ordered kcmp tr' := by
+  simp only [putAssoc, Option.map_eq_some_iff] at e
+  obtain ⟨⟨t1, ch⟩, e1, rfl⟩ := e
+  have := insert_toList h k v tr ord e1
+  exact ⟨this, by unfold Ordered; rw [this]; exact insPairs_sorted h k v _ ord⟩
+
+open Scryer.Assoc in
+/-- get after put (refinement to a finite map `Key → Option Val`):
+    `get(k', put(k, v, t)) = v` if `k' == k`, else `get(k', t)`. -/
+theorem C14_assoc_get_put {κ ν : Type} {kcmp : κ → κ → Ordering} (h : IsPreorder kcmp) (k k' : κ)
+    (v : ν) (tr tr' : Tree κ ν) (ord : Ordered kcmp tr) (e : putAssoc kcmp k tr v = some tr') :
+    get kcmp k' tr' = if kcmp k' k = .eq then some v else get kcmp k' tr := by
+  have hp := C14_assoc_put_ordered h k v tr tr' ord e
+  rw [get_eq_lookup h k' tr' hp.2, hp.1, lookup_insPairs h, get_eq_lookup h k' tr ord]
+
+open Scryer.Assoc in
+/-- the tree reached from `t` by any sequence of `put_assoc` calls. -/
+def puts {κ ν : Type} (kcmp : κ → κ → Ordering) : List (κ × ν) → Option (Tree κ ν)
+  | [] => some .t
+  | (k, v) :: rest => (puts kcmp rest).bind fun tr => putAssoc kcmp k tr v
+
+open Scryer.Assoc in
+/-- invariants of every history of updates: starting from the empty assoc, every sequence of
+    `put_assoc` succeeds and yields a balanced search tree whose `assoc_to_list` is the
+    sorted-association-list built by the same insertions (the finite map). -/
+theorem C14_assoc_history_invariant {κ ν : Type} {kcmp : κ → κ → Ordering} (h : IsPreorder kcmp)
+    (ops : List (κ × ν)) :
+    ∃ tr, puts kcmp ops = some tr ∧ Balanced tr ∧ Ordered kcmp tr ∧
+      toList tr = ops.foldr (fun p acc => insPairs kcmp p.1 p.2 acc) [] := by
+  induction ops with
+  | nil => exact ⟨.t, rfl, trivial, List.Pairwise.nil, rfl⟩
+  | cons p rest ih =>
+    obtain ⟨k, v⟩ := p
+    obtain ⟨tr, e, bal, ord, hl⟩ := ih
+    obtain ⟨tr', e', bal', _⟩ := C14_assoc_put_balanced kcmp k v tr bal
+    have := C14_assoc_put_ordered h k v tr tr' ord e'
+    exact ⟨tr', by simp [puts, e, e'], bal', this.2, by rw [this.1, hl]; rfl⟩
+
+open Scryer.Assoc in
+/-- `assoc_to_keys/2`, `assoc_to_values/2`, `min_assoc/3`, `max_assoc/3` are the projections /
+    the first / the last pair of `assoc_to_list/2`. -/
+theorem C14_assoc_projections {κ ν : Type} (tr : Tree κ ν) :
+    toKeys tr = (toList tr).map (·.1) ∧ toValues tr = (toList tr).map (·.2) ∧
+      minAssoc tr = (toList tr).head? ∧ maxAssoc tr = (toList tr).getLast? :=
+  ⟨toKeys_eq tr, toValues_eq tr, minAssoc_eq tr, maxAssoc_eq tr⟩
+
+/-! ## library(lists), library(pairs) -/
+
+open Scryer.ListLib in
+/-- `append/3` with the first two arguments unbound enumerates exactly the splits of the list. -/
+theorem C14_append_splits (l : List α) (x y : List α) :
+    (x, y) ∈ appendSplits l ↔ x ++ y = l := by
+  induction l generalizing x y with
+  | nil => simp [appendSplits]
+  | cons z zs ih =>
+    simp only [appendSplits, List.mem_cons, List.mem_map, Prod.mk.injEq]
+    constructor
+    · rintro (⟨rfl, rfl⟩ | ⟨⟨p1, p2⟩, hp, rfl, rfl⟩)
+      · rfl
+      · simp [(ih p1 p2).1 hp]
+    · intro e
+      cases x with
+      | nil => left; exact ⟨rfl, e.symm ▸ rfl⟩
+      | cons a x' =>
+        right
+        simp only [List.cons_append, List.cons.injEq] at e
+        exact ⟨(x', y), (ih x' y).2 e.2, by simp [e.1], rfl⟩
+
+open Scryer.ListLib in
+/-- `reverse/2` (accumulator version of lists.pl) is list reversal, hence an involution. -/
+theorem C14_reverse (l : List α) : reverse l = l.reverse ∧ reverse (reverse l) = l := by
+  have : ∀ (xs acc : List α), revAcc xs acc = xs.reverse ++ acc := by
+    intro xs
+    induction xs with
+    | nil => simp [revAcc]
+    | cons x xs ih => intro acc; simp [revAcc, ih]
+  simp [reverse, this]
+
+open Scryer.ListLib in
+/-- `nth0/3`, `nth1/3` with a given index are indexing from 0 / from 1. -/
+theorem C14_nth (n : Nat) (l : List α) :
+    nth0 n l = l[n]? ∧ nth1 (n + 1) l = l[n]? ∧ nth1 0 l = none := by
+  have : ∀ (n : Nat) (l : List α), nth0 n l = l[n]? := by
+    intro n l
+    induction l generalizing n with
+    | nil => cases n <;> simp [nth0]
+    | cons x xs ih => cases n <;> simp [nth0, ih]
+  simp [nth1, this]
+
+open Scryer.ListLib in
+/-- `length/2` of `append/3`, `pairs_keys_values/3` in both directions. -/
+theorem C14_pairs_keys_values {β : Type} (ps : List (α × β)) :
+    pairsOfKeysValues (pairsKeysValues ps).1 (pairsKeysValues ps).2 = some ps ∧
+      (pairsKeysValues ps).1.length = ps.length ∧ (pairsKeysValues ps).2.length = ps.length := by
+  refine ⟨?_, by simp [pairsKeysValues], by simp [pairsKeysValues]⟩
+  induction ps with
+  | nil => rfl
+  | cons p ps ih =>
+    simp only [pairsKeysValues, List.map_cons] at ih ⊢
+    simp [pairsOfKeysValues, ih]
+
+open Scryer.ListLib in
+/-- `sum_list/2` is the sum. -/
+theorem C14_sum_list (l : List Int) : sumList l = l.sum := by
+  have : ∀ (l : List Int) (s : Int), l.foldl (fun s x => s + x) s = s + l.sum := by
+    intro l
+    induction l with
+    | nil => simp
+    | cons x xs ih => intro s; simp [ih]; omega
+  simp [sumList, this]
+
+/-! ## non-vacuity -/
+
+/-- `compare` on `Nat` is a total order: the hypotheses `IsPreorder` / `IsLinear` are satisfiable. -/
+theorem natLinear : IsLinear (compare : Nat → Nat → Ordering) where
+  refl a := by simp
+  swap a b := by
+    rcases Nat.lt_trichotomy a b with h | h | h
+    · rw [Nat.compare_eq_lt.2 h, Nat.compare_eq_gt.2 h]; rfl
+    · subst h; simp
+    · rw [Nat.compare_eq_gt.2 h, Nat.compare_eq_lt.2 h]; rfl
+  le_trans a b c h1 h2 := by
+    simp only [ne_eq, Nat.compare_eq_gt, Nat.not_lt] at *
+    omega
+  eq_imp a b e := Nat.compare_eq_eq.1 e
+
+example : isort compare [3, 1, 2, 1] = [1, 1, 2, 3] := by decide
+example : dedupAdj compare (isort compare [3, 1, 2, 1]) = [1, 2, 3] := by decide
+example : StrictSorted compare [1, 2, 3] := by simp [StrictSorted]; decide
+-- keysort keeps equal keys in input order
+example : isort (fun (a b : Nat × String) => compare a.1 b.1) [(2, "x"), (1, "y"), (2, "a"), (1, "b")]
+    = [(1, "y"), (1, "b"), (2, "x"), (2, "a")] := by decide
+-- an assoc history with a double rotation
+example : (puts (ν := Nat) compare [(2, 0), (3, 0), (1, 0)]).map Assoc.toList
+    = some [(1, 0), (2, 0), (3, 0)] := by decide
+example : Assoc.Balanced (Assoc.Tree.node 2 0 .eq (.node 1 0 .eq .t .t) (.node 3 0 .eq .t .t)) := by
+  simp [Assoc.Balanced, Assoc.TagOk, Assoc.height]
+-- a `-0.0`/`0.0` pair shows why uniqueness is "up to ==" for the preorder
+example (age : String → Nat) : termCompare age (.flt 0x8000000000000000) (.flt 0) = .eq := by
+  simp [termCompare_eq, sameCat, cat, leafCompare, fltCmp_eq_optCmp, fltScaled, fltExp,
+    fltMant, fltSign, optCmp]
 
 end Scryer.C14
